@@ -128,13 +128,16 @@ Fixpoint parse_packets_n (k: nat) (l: list N) : option (list packet * list N) :=
             | Some (p, r) => match parse_packets_n k' r with Some (ps, r') => Some (p :: ps, r') | None => None end
             | None => None end
   end.
-Definition lnk_split (case: list N) : option (N * list N * list packet) :=
+Definition lnk_split (case: list N) : option (N * list N * list packet * N) :=
   match case with
   | link :: ng :: r =>
       match take ng r with
       | Some (gaps, np :: r') => match parse_packets_n (N.to_nat np) r' with
-                                 | Some (ps, []) => Some (link, gaps, ps)
-                                 | Some (ps, [_]) => Some (link, gaps, ps)     (* trailing flag: the receiving node also transmits before polling (no effect in the model: sender and receiver are independent) *)
+                                 | Some (ps, []) => Some (link, gaps, ps, 0)
+                                 (* trailing flags: bit 0 = the receiving node also transmits before polling (no effect in the model: sender and
+                                    receiver are independent); serial port only: bit 1 = reads are interrupted (EINTR) inside frames, bit 2 = 'no data
+                                    yet' is reported as some other read failure than TimedOut (Ok(0), WouldBlock, ...) *)
+                                 | Some (ps, [fl]) => Some (link, gaps, ps, fl)
                                  | _ => None end
       | _ => None
       end
@@ -152,7 +155,13 @@ Definition frames_of_packets (ps: list packet) : out (list (list frame)) berr :=
 Definition wire_usart_frame (f: frame) : out (list N) ferr := do e <- to_usart f; Val (link_bytes e).
 
 (* returns the polls and, for each packet, the number of tokens left when its last token has been consumed *)
-Definition lnk_run (link: N) (gaps: list N) (ps: list packet) : option (list (res * nat) * list N) :=
+Definition intr_frame (w: list N) : list stok :=
+  match w with
+  | d :: l :: b1 :: b2 :: r => SB d :: SINT :: SB l :: SB b1 :: SINT :: SB b2 :: map SB r
+  | d :: l :: r => SB d :: SINT :: SB l :: map SB r
+  | _ => map SB w
+  end.
+Definition lnk_run (link: N) (gaps: list N) (ps: list packet) (fl: N) : option (list (res * nat) * list N) :=
   match frames_of_packets ps with
   | Val fss =>
       match link with
@@ -169,7 +178,8 @@ Definition lnk_run (link: N) (gaps: list N) (ps: list packet) : option (list (re
                           Some (run_polls usart (weave UWB gaps 0 (map (fun b => [UB b]) bytes_)), [])
              | _ => None end
       | 2 => match mapM (fun fs => mapM wire_usart_frame fs) fss with
-             | Val wss => Some (run_polls serial (weave STO gaps 0 (map (fun w => map SB w) (concat wss))), [])
+             | Val wss => let intr := N.testbit fl 1 in let alt := N.testbit fl 2 in
+                          Some (run_polls serial (weave (if alt then SERR else STO) gaps 0 (map (fun w => if intr then intr_frame w else map SB w) (concat wss))), [])
              | _ => None end
       | _ => None
       end
@@ -177,14 +187,14 @@ Definition lnk_run (link: N) (gaps: list N) (ps: list packet) : option (list (re
   end.
 Definition run_LNK (case: list N) : list N :=
   match lnk_split case with
-  | Some (link, gaps, ps) => match lnk_run link gaps ps with Some (l, _) => show_polls l | None => [3] end
+  | Some (link, gaps, ps, fl) => match lnk_run link gaps ps fl with Some (l, _) => show_polls l | None => [3] end
   | None => BAD
   end.
 
 (* C13: delivered sequence = sent sequence, only 'nothing received' otherwise, one packet per successful poll *)
 Definition c13_eval (case obs: list N) : list N * list N :=
   match lnk_split case, parse_polls obs with
-  | Some (link, gaps, pkts), Some (ps, []) =>
+  | Some (link, gaps, pkts, _), Some (ps, []) =>
       let classes := map (fun e => res_class (fst (fst e))) ps in
       let oks := map (fun e => fst (fst e)) (filter (fun e => res_class (fst (fst e)) =? 0) ps) in
       let expect := map (fun p => 0 :: show_packet p) pkts in
